@@ -99,7 +99,7 @@ CHECKS["C19"] = dict(level="model_checking", ref="DESIGN.md §4 C19, §9",
 CHECKS["C17"] = dict(level="model_checking", ref="DESIGN.md §4 C17, §9",
     text="TLA+ sequential reference AppContract (dependencies first, members in order, Start once, failed start leaves nothing running, mode rule Permanent / "
          "Transient / Temporary, Terminate once with the causing reason, back to loaded, stop reports success only when everything is down) used as oracle: systematic "
-         "histories (every mode x 1-3 members x every member x every reason, explicit start modes, failing k-th member, dependencies, stop / stop-force / unload / "
+         "histories (every mode x 1-3 members x every member x every reason, a second member leaving its handler with its own reason while the application is already stopping, explicit start modes, failing k-th member, dependencies, stop / stop-force / unload / "
          "restart) and seeded random ones are executed on a real node in a subprocess (a call that never returns is an observation) and TLC replays every recorded line.",
     note="Trusted: TLC; operations are sequential (quiescence after each): races between concurrent API calls and member deaths (App atomic-step model, DESIGN Appendix G) "
          "are not bound to the code yet; 1-4 members, one dependency.",
